@@ -212,7 +212,7 @@ func runGen(prop, tier string, chunk int, rep *Report) (ok, nontrivial, units in
 			if err != nil {
 				break
 			}
-			js, _ := json.Marshal(genTask{From: h, To: h + 1, Patience: 120})
+			js, _ := json.Marshal(genTask{From: h, To: h + 1, Patience: 60})
 			wp.in.Write(append(js, '\n'))
 			line, err := wp.out.ReadBytes('\n')
 			var r genTaskResult
